@@ -82,15 +82,24 @@ class C12(Property):
                 ops.append("at:0:%d" % off)
             # every boundary-aligned sub-range (bounded)
             nviews = 2
+            prev_slice = 0
             pairs = [(x, y) for x in bnd for y in bnd if x <= y]
             for (x, y) in pairs[:12] if tier == "quick" else pairs[:40]:
                 ops.append("slice:0:%d:%d" % (x, y)); v = nviews; nviews += 1
                 ops += ["str:%d" % v, "len:%d" % v, "chunks:%d" % v, "eqv:%d:1" % v, "find:%d:%d" % (v, CHARS[rng.below(3)])]
+                if v > 2:
+                    ops += ["eqv:%d:%d" % (v, prev_slice), "eqv:%d:%d" % (prev_slice, v)]      # two slices of the SAME node
+                prev_slice = v
                 sub = text.encode("utf-8")[x:y]
                 bs = boundaries(sub)
                 if len(bs) > 2:
                     ops.append("slice:%d:%d:%d" % (v, bs[1], bs[-1])); w = nviews; nviews += 1      # composition
                     ops += ["str:%d" % w, "at:%d:0" % w]
+            # two different sub-ranges of the SAME node that are equally long: equal exactly when their texts are
+            same_len = [(p1, p2) for p1 in pairs for p2 in pairs if p1 < p2 and p1[1] - p1[0] == p2[1] - p2[0] and p1[1] > p1[0]]
+            for (p1, p2) in same_len[:6] if tier == "quick" else same_len[:30]:
+                ops += ["slice:0:%d:%d" % p1, "slice:0:%d:%d" % p2, "eqv:%d:%d" % (nviews, nviews + 1), "eqv:%d:%d" % (nviews + 1, nviews)]
+                nviews += 2
             ops += ["slice:0:%d:%d" % (bnd[-1], bnd[-1] + 1), "slice:0:2:1", "try:0:1", "try:0:9"]; nviews += 2
             res.append(("random", "X %s / %s | %s" % (" ".join(a), " ".join(b), " ".join(ops))))
         # views of inner nodes
